@@ -354,3 +354,72 @@ Proof.
   destruct (_ || _); [reflexivity|]. destruct (parse_meta _ _); [|reflexivity].
   rewrite !parse_buckets_ref. rewrite (pb_ref_indep o1 o2). reflexivity.
 Qed.
+
+(* ---------------------------------------------------------------- Read / ReadFile *)
+
+Lemma find_last_from cs : forall k acc,
+  fold_left (fun acc kv => if beq (fst kv) k then Some (snd kv) else acc) cs acc =
+  match find_last k cs with Some v => Some v | None => acc end.
+Proof.
+  unfold find_last. induction cs as [|[k' v'] t IH]; intros k acc; [reflexivity|]. cbn [fold_left fst snd].
+  rewrite (IH k (if beq k' k then Some v' else acc)), (IH k (if beq k' k then Some v' else None)).
+  destruct (fold_left _ t None); [reflexivity|]. destruct (beq k' k); reflexivity.
+Qed.
+
+Lemma find_last_none k cs : ~ In k (map fst cs) -> find_last k cs = None.
+Proof.
+  induction cs as [|[k' v'] t IH]; intro H; [reflexivity|]. unfold find_last. cbn [fold_left fst snd].
+  rewrite find_last_from. cbn [map fst In] in H.
+  rewrite IH by tauto. replace (beq k' k) with false; [reflexivity|]. symmetry. apply beq_neq. tauto.
+Qed.
+
+(* with pairwise different keys the map holds the listed value *)
+Lemma find_last_nodup k v cs : NoDup (map fst cs) -> In (k, v) cs -> find_last k cs = Some v.
+Proof.
+  induction cs as [|[k' v'] t IH]; intros Hnd Hin; [contradiction|]. cbn [map fst] in Hnd.
+  inversion Hnd as [|? ? Hni Hnd']; subst. unfold find_last. cbn [fold_left fst snd]. rewrite find_last_from.
+  destruct Hin as [E|Hin].
+  - injection E as -> ->. rewrite find_last_none by exact Hni. now rewrite beq_refl.
+  - now rewrite (IH Hnd' Hin).
+Qed.
+
+(* read_faithful: whatever mapping the reading process holds, Read returns what
+   the independent reader of the file's current contents finds under the
+   expanded name (the later record when two expand to the same name) *)
+Theorem read_faithful bs name : wf_file bs = true ->
+  match spec_decode bs with
+  | Some (_, cs) =>
+      read_counter bs name =
+      match find_last (decode_stack name) cs with Some v => RdVal v | None => RdNotFound end
+  | None => False
+  end.
+Proof.
+  intro Hwf. pose proof (parse_faithful [] bs Hwf) as P. destruct (spec_decode bs) as [[kv cs]|]; [|exact P].
+  unfold read_counter, parse. now rewrite P.
+Qed.
+
+(* a counter the file holds, no other record expanding to its name: its value *)
+Theorem read_finds_record bs rs r : wf_file bs = true -> spec_records bs = Some rs -> In r rs ->
+  NoDup (map (fun x => decode_stack (r_name x)) rs) ->
+  read_counter bs (r_name r) = RdVal (r_val r).
+Proof.
+  intros Hwf Hr Hin Hnd. pose proof (read_faithful bs (r_name r) Hwf) as P.
+  unfold spec_decode, spec_records in *.
+  destruct (spec_read bs) as [[[[[hdr meta] kv] limit] tbl]|]; [|discriminate]. injection Hr as <-.
+  rewrite P. rewrite (find_last_nodup (decode_stack (r_name r)) (r_val r)); [reflexivity| |].
+  - unfold decoded. rewrite map_map. exact Hnd.
+  - unfold decoded. apply in_map_iff. exists r. split; [reflexivity|exact Hin].
+Qed.
+
+Theorem read_file_faithful bs : wf_file bs = true ->
+  match spec_decode bs with
+  | Some (_, cs) =>
+      read_file bs =
+      Some (filter (fun kv => negb (is_stack_name (fst kv))) (last_wins cs),
+            map (fun kv => (decode_stack (fst kv), snd kv)) (filter (fun kv => is_stack_name (fst kv)) (last_wins cs)))
+  | None => False
+  end.
+Proof.
+  intro Hwf. pose proof (parse_faithful [] bs Hwf) as P. destruct (spec_decode bs) as [[kv cs]|]; [|exact P].
+  unfold read_file, parse. now rewrite P.
+Qed.
